@@ -377,10 +377,14 @@ def invalid_task(texts):
             st.fail('invalid-filter-accepted', {'position': 'invalid-filter'}, case, {'filter': text, 'selected': repr(out[1])})
         elif not (out[1] in ('ParseException', 'ParseSyntaxException') and out[2].startswith('pyparsing')):
             st.fail('invalid-filter-not-rejected-with-parse-error', {'exc': out[1]}, case, {'filter': text})
-        # every entry point takes the same decision on the same text
+        # every entry point takes the same decision on the same text — also on a grid without rows (nothing to evaluate)
         from hszinc import grid_filter as gf
+        empty = hs.Grid(version='3.0', columns=[('id', []), ('a', [])])
+        emptied = g.filter('zz_absent_tag')
         for name, call in (('Grid.filter(text, limit)', lambda: g.filter(text, 1)), ('filter_function', lambda: gf.filter_function(text)),
-                           ('parse_filter', lambda: gf.parse_filter(text))):
+                           ('parse_filter', lambda: gf.parse_filter(text)), ('Grid.filter on a grid without rows', lambda: empty.filter(text)),
+                           ('Grid.filter(text, limit) on a grid without rows', lambda: empty.filter(text, 2)),
+                           ('Grid.filter on an empty filter result', lambda: emptied.filter(text))):
             try:
                 call()
                 verdict = 'accepted'
@@ -396,6 +400,50 @@ def invalid_task(texts):
     return st
 
 
+def incomparable_task(dummy):
+    """Comparisons that cannot be made (other unit, other kind, absent, NaN) are simply false: evaluating them changes no
+    global state either (warning filters, registries, hooks ...)."""
+    import datetime
+    import hszinc as hs
+    ensure_hook()
+    st = Stats()
+    g = hs.Grid(version='3.0', columns=[('id', []), ('a', []), ('b', [])])
+    g.append({'id': 'w', 'a': hs.Quantity(5.0, 'W'), 'b': hs.MARKER})
+    g.append({'id': 'plain', 'a': 5.0})
+    g.append({'id': 'text', 'a': 'five'})
+    g.append({'id': 'date', 'a': datetime.date(2020, 1, 1)})
+    g.append({'id': 'nan', 'a': float('nan')})
+    g.append({'id': 'ref', 'r': hs.Ref('w')})
+    # warm-up: lazy imports (strptime ...) and first-use initialisation of every literal kind must not count as effects; the
+    # warm-up filters differ from the measured ones and only meet comparable values
+    warm = hs.Grid(version='3.0', columns=[('id', []), ('a', [])])
+    warm.append({'id': 'w', 'a': 1.0})
+    for t in ('a == 1', 'a == 1kg', 'a == "y"', 'a == `v`', 'a == @q', 'a == 2021-02-03', 'a == 13:00:00', 'a == 2021-02-03T00:00:00Z UTC', 'a == false', 'a == INF', 'q->a'):
+        try:
+            warm.filter(t)
+        except BaseException:  # noqa
+            pass
+    for text in ('a == 5kW', 'a != 5kW', 'a < 5kW', 'a >= 5kW', 'a == 5kW and b', 'b or a > 1kW', 'r->a > 1kW', 'a < "x"', 'a > 2020-01-01', 'a == 12:00:00',
+                 'a < @r', 'a > `u`', 'a <= NaN', 'a == 5', 'a < true'):
+        g.filter('a')                                    # nothing new is imported or compiled lazily inside the measured call
+        snap0 = snapshot()
+        out, ev, flag, w = run_filter(hs, g, text)
+        d = diff(snap0, snapshot())
+        st.count('executions')
+        case = {'kind': 'incomparable', 'filter': text}
+        st.case(('incomparable', text), outcome=(out[0], out[1] if out[0] == 'raise' else 'ok'))
+        if d:
+            st.fail('global-state-changed', {'position': 'incomparable-comparison', 'what': d[0][:60]}, case, {'filter': text, 'diff': d[:4]})
+        if out[0] != 'ok':
+            st.fail('filter-failed-with-non-parse-error', {'position': 'incomparable-comparison', 'exc': out[1]}, case, {'filter': text})
+        if w:
+            st.fail('payload-wrote-to-stdout', {'position': 'incomparable-comparison'}, case, {'filter': text})
+        bad = [e for e in ev if not (e[0] in ('compile', 'exec') and e[1] == 'generated-filter')]
+        if bad:
+            st.fail('payload-caused-audited-effect', {'position': 'incomparable-comparison', 'event': bad[0][0]}, case, {'events': [list(e) for e in ev][:6]})
+    return st
+
+
 def run(ctx):
     items = [(pos, atom, twin, spec, sh) for pos, atom, twin, spec in cases() for sh in SHAPES]
     seeded_rng(ctx.seed, 'c12').shuffle(items)
@@ -403,6 +451,8 @@ def run(ctx):
     for part in pmap(task, [(c,) for c in chunks(items, ctx.jobs * 2)], ctx.jobs):
         st.merge(part)
     for part in pmap(invalid_task, [(c,) for c in chunks(INVALID, ctx.jobs)], ctx.jobs):
+        st.merge(part)
+    for part in pmap(incomparable_task, [(0,), (1,)], ctx.jobs):
         st.merge(part)
     ex = st.c.get('executions', 0)
     st.c['states'], st.c['transitions'] = ex + 1, ex
@@ -420,6 +470,12 @@ def run(ctx):
 
 
 def replay(case, st):
+    if case['kind'] == 'incomparable':
+        sub = incomparable_task(0)
+        for f in sub.failures:
+            if f['case']['filter'] == case['filter']:
+                st.fail(f['symptom'], f['sig'], f['case'], f['detail'])
+        return
     if case['kind'] == 'invalid':
         st.merge(invalid_task([case['filter']]))
         return
